@@ -91,6 +91,7 @@ inductive ROp
   | ows (lp : LP) (f : From)
   | peek (lp : LP)
   | coll (lp : LP) (item : RProg)
+  | sub (item : RProg)          -- ReadObjectFromReader: the callback reads from the same reader
 inductive RProg
   | nil
   | cons (op : ROp) (rest : RProg)
@@ -167,6 +168,7 @@ def runOp : ROp → Rd → ROut
     | (some n, rd', c) =>
       let o := loopItems (runProg item) n rd'
       ⟨o.res, o.rd, o.vals, c + o.cost⟩
+  | .sub item, rd => runProg item rd
 def runProg : RProg → Rd → ROut
   | .nil, rd => ⟨.ok, rd, [], {}⟩
   | .cons op rest, rd =>
@@ -202,6 +204,21 @@ deriving Repr, DecidableEq
 def BB.write (w : BB) (p : Bytes) : BB :=
   let buf1 := w.buf ++ List.replicate (w.pos - w.buf.length) 0
   ⟨buf1.take w.pos ++ p ++ buf1.drop (w.pos + p.length), w.pos + p.length⟩
+
+/-- `whence` of `io.Seeker` -/
+inductive Whence
+  | start | cur | fin
+deriving Repr, DecidableEq
+
+/-- `ByteBuffer.Seek` (`stream.GoTo` = start, `stream.Skip` = cur, `stream.Offset` = cur 0): the new position is
+computed from the start, the current position or the length of the storage; a negative result is an error
+and leaves the buffer as it is; a position beyond the end is allowed (the next write pads with zeros). -/
+def BB.seek (w : BB) (wh : Whence) (off : Int) : Option BB :=
+  let np : Int := match wh with
+    | .start => off
+    | .cur => (w.pos : Int) + off
+    | .fin => (w.buf.length : Int) + off
+  if np < 0 then none else some ⟨w.buf, np.toNat⟩
 
 def fitsLP : LP → Nat → Bool
   | .u8, n => n ≤ 255
@@ -329,8 +346,26 @@ open Hive.Proto
 def parseChunks (s : String) : Option (List Nat) :=
   if s == "-" then some [] else (s.splitOn ",").mapM String.toNat?
 
+/-- The reader token `CHUNKS[!][@K]`: `!` = the reader hands out its last bytes together with `io.EOF`
+(allowed by the `io.Reader` contract; `io.ReadFull` ignores an error that comes with enough bytes — same
+behaviour), `@K` = the reader fails with an error other than EOF once `K` bytes were delivered: for the
+helpers (outcome class, values, bytes taken from the reader) that is the reader over the first `K` bytes. -/
+def parseReader (s : String) (d : Bytes) : Option (List Nat × Bytes) :=
+  match s.splitOn "@" with
+  | [c] => do pure (← parseChunks ((c.splitOn "!").headD ""), d)
+  | [c, k] => do pure (← parseChunks ((c.splitOn "!").headD ""), d.take (← k.toNat?))
+  | _ => none
+
+/-- the seek token of an `rw` line: `N` = GoTo N, `c+N` / `c-N` = Skip, `e+N` / `e-N` = Seek(·, io.SeekEnd) -/
+def parseSeek (s : String) : Option (Whence × Int) :=
+  match s.toList with
+  | 'c' :: r => do pure (.cur, ← (String.mk (if r.head? = some '+' then r.drop 1 else r)).toInt?)
+  | 'e' :: r => do pure (.fin, ← (String.mk (if r.head? = some '+' then r.drop 1 else r)).toInt?)
+  | _ => do pure (.start, ← s.toInt?)
+
 def parseFrom : String → Option From
   | "id" => some .id
+  | "idc" => some .id
   | "u64" => some .u64
   | "a32" => some .a32
   | "half" => some .half
@@ -370,6 +405,10 @@ def parseR : Nat → List String → Option (RProg × List String)
     let (item, ts1) ← parseR f ts
     let (r, ts2) ← parseR f ts1
     pure (.cons (.coll (← parseLP lp) item) r, ts2)
+  | f + 1, "ofr" :: "(" :: ts => do
+    let (item, ts1) ← parseR f ts
+    let (r, ts2) ← parseR f ts1
+    pure (.cons (.sub item) r, ts2)
   | _ + 1, _ => none
 
 def takeItems : List String → Option (List Bytes × List String)
@@ -404,52 +443,113 @@ def parseW : Nat → List String → Option (List WOp)
     pure (.coll (← parseLP lp) (.obj (← n.toNat?)) its :: (← parseW f ts'))
   | _ + 1, _ => none
 
+/-! ### a seekable reader (`stream.ByteReader` = `bytes.Reader`): reader programs between Skip / GoTo / Offset -/
+
+inductive SOp
+  | run (p : RProg)
+  | goto (n : Int)          -- stream.GoTo
+  | skip (n : Int)          -- stream.Skip
+  | off                     -- stream.Offset
+  | bread                   -- ByteReader.BytesRead
+
+structure SOut where
+  res : Res
+  pos : Nat
+  vals : List Val
+deriving Repr
+
+/-- the position of a `bytes.Reader` may lie beyond the data (then every read is `io.EOF`), never below 0
+(`Seek` refuses); `BytesRead` = `Size() - Len()` = the position capped at the size. -/
+def runS : List SOp → Bytes → Nat → SOut
+  | [], _, pos => ⟨.ok, pos, []⟩
+  | .run p :: rest, d, pos =>
+    let o := runProg p ⟨d.drop pos, []⟩
+    let pos' := pos + ((d.drop pos).length - o.rd.rest.length)
+    match o.res with
+    | .ok => let r := runS rest d pos'; ⟨r.res, r.pos, o.vals ++ r.vals⟩
+    | x => ⟨x, pos', o.vals⟩
+  | .goto n :: rest, d, pos => if n < 0 then ⟨.err, pos, []⟩ else runS rest d n.toNat
+  | .skip n :: rest, d, pos => if (pos : Int) + n < 0 then ⟨.err, pos, []⟩ else runS rest d ((pos : Int) + n).toNat
+  | .off :: rest, d, pos => let r := runS rest d pos; ⟨r.res, r.pos, .size pos :: r.vals⟩
+  | .bread :: rest, d, pos => let r := runS rest d pos; ⟨r.res, r.pos, .size (min pos d.length) :: r.vals⟩
+
+def parseS : Nat → List String → Option (List SOp)
+  | 0, _ => none
+  | _ + 1, [] => some []
+  | f + 1, "goto" :: n :: ts => do pure (.goto (← n.toInt?) :: (← parseS f ts))
+  | f + 1, "skip" :: n :: ts => do pure (.skip (← n.toInt?) :: (← parseS f ts))
+  | f + 1, "off" :: ts => do pure (.off :: (← parseS f ts))
+  | f + 1, "br" :: ts => do pure (.bread :: (← parseS f ts))
+  | f + 1, "run" :: "(" :: ts => do
+    let (p, ts1) ← parseR (ts.length + 1) ts
+    pure (.run p :: (← parseS f ts1))
+  | _ + 1, _ => none
+
+def showS (o : SOut) : String :=
+  match o.res with
+  | .ok => s!"ok {o.pos} {showVals o.vals}"
+  | .err => s!"err {o.pos} {showVals o.vals}"
+  | .panic => "panic"
+
 def showRes (total : Nat) (o : ROut) : String :=
   match o.res with
   | .ok => s!"ok {total - o.rd.rest.length} {o.cost.iters} {showVals o.vals}"
   | .err => s!"err {total - o.rd.rest.length} {o.cost.iters}"
   | .panic => "panic"
 
-/-- `sr CHUNKS DATAHEX prog…` and `rt CHUNKS TAILHEX wprog…` -/
+/-- `sr READER DATAHEX prog…`, `sk DATAHEX sprog…`, `rt READER TAILHEX wprog…`, `rw INIT CHUNKS phase1… | SEEK | phase2…` -/
 def stepLine (toks : List String) : String :=
   match toks with
   | "sr" :: cs :: d :: ps =>
-    match parseChunks cs, unhex d, parseR (ps.length + 1) ps with
-    | some cs, some d, some (p, _) => showRes d.length (runProg p ⟨d, cs⟩)
-    | _, _, _ => "bad-op"
+    match unhex d, parseR (ps.length + 1) ps with
+    | some d, some (p, _) =>
+      match parseReader cs d with
+      | some (cs, d) => showRes d.length (runProg p ⟨d, cs⟩)
+      | none => "bad-op"
+    | _, _ => "bad-op"
+  | "sk" :: d :: ps =>
+    match unhex d, parseS (ps.length + 1) ps with
+    | some d, some sp => showS (runS sp d 0)
+    | _, _ => "bad-op"
   | "rt" :: cs :: tl :: ps =>
-    match parseChunks cs, unhex tl, parseW (ps.length + 1) ps with
-    | some cs, some tl, some wp =>
+    match unhex tl, parseW (ps.length + 1) ps with
+    | some tl, some wp =>
       match runW wp ⟨[], 0⟩ with
       | none => "werr"
       | some bb =>
-        let o := runProg (readOf wp) ⟨bb.buf ++ tl, cs⟩
-        let consumed := (bb.buf ++ tl).length - o.rd.rest.length
-        match o.res with
-        | .ok => s!"ok {hex bb.buf} {consumed} {showVals o.vals}"
-        | .err => s!"rerr {consumed}"
-        | .panic => "panic"
-    | _, _, _ => "bad-op"
+        match parseReader cs (bb.buf ++ tl) with
+        | none => "bad-op"
+        | some (cs, d) =>
+          let o := runProg (readOf wp) ⟨d, cs⟩
+          let consumed := d.length - o.rd.rest.length
+          match o.res with
+          | .ok => s!"ok {hex bb.buf} {consumed} {showVals o.vals}"
+          | .err => s!"rerr {consumed}"
+          | .panic => "panic"
+    | _, _ => "bad-op"
   | "rw" :: init :: cs :: rest =>
     -- rw INIT CHUNKS phase1… | OFF | phase2…: a ByteBuffer with INIT bytes of storage, phase 1 written from
     -- offset 0, Seek to OFF, phase 2 written in place; phase 2 read back from OFF of the final storage
     let p1 := rest.takeWhile (· != "|")
     match (rest.dropWhile (· != "|")).drop 1 with
     | off :: "|" :: p2 =>
-      match init.toNat?, parseChunks cs, off.toNat?, parseW (p1.length + 1) p1, parseW (p2.length + 1) p2 with
-      | some init, some cs, some off, some w1, some w2 =>
+      match init.toNat?, parseChunks cs, parseSeek off, parseW (p1.length + 1) p1, parseW (p2.length + 1) p2 with
+      | some init, some cs, some (wh, off), some w1, some w2 =>
         match runW w1 ⟨List.replicate init 0, 0⟩ with
         | none => "werr"
         | some b1 =>
-          match runW w2 ⟨b1.buf, off⟩ with
-          | none => "werr"
-          | some b2 =>
-            let o := runProg (readOf w2) ⟨b2.buf.drop off, cs⟩
-            let consumed := (b2.buf.drop off).length - o.rd.rest.length
-            match o.res with
-            | .ok => s!"ok {hex b2.buf} {b2.pos} {consumed} {showVals o.vals}"
-            | .err => s!"rerr {hex b2.buf} {b2.pos} {consumed}"
-            | .panic => "panic"
+          match b1.seek wh off with
+          | none => "serr"
+          | some b1s =>
+            match runW w2 b1s with
+            | none => "werr"
+            | some b2 =>
+              let o := runProg (readOf w2) ⟨b2.buf.drop b1s.pos, cs⟩
+              let consumed := (b2.buf.drop b1s.pos).length - o.rd.rest.length
+              match o.res with
+              | .ok => s!"ok {hex b2.buf} {b1s.pos} {b2.pos} {consumed} {showVals o.vals}"
+              | .err => s!"rerr {hex b2.buf} {b1s.pos} {b2.pos} {consumed}"
+              | .panic => "panic"
       | _, _, _, _, _ => "bad-op"
     | _ => "bad-op"
   | _ => "bad-op"
